@@ -426,6 +426,29 @@ m('stateclose-multicommit','C13',['STATE-CLOSE'],'std/multicommit/nativecommit.g
 	// close collecting input in case anyone wants to check more variables to commit to.
 	mct.closed = true
 	if len(mct.cbs) == 0 {''',note='fast path of the multicommitter returns before marking it closed')
+edit('std/math/emulated/field_mul.go',[('''	for i := range mc.vals {
+		mc.vals[i].evaluation = 0
+		mc.vals[i].isEvaluated = false
+	}
+	mc.r.evaluation = 0
+	mc.r.isEvaluated = false
+	mc.k.evaluation = 0
+	mc.k.isEvaluated = false
+	mc.c.evaluation = 0
+	mc.c.isEvaluated = false
+}''','''	for i := range mc.vals {
+		resetEvaluation(mc.vals[i])
+	}
+	resetEvaluation(mc.r)
+	resetEvaluation(mc.k)
+	resetEvaluation(mc.c)
+}
+
+func resetEvaluation[T FieldParams](e *Element[T]) {
+	e.evaluation = 0
+	e.isEvaluated = false
+}''')])
+save('benign-statereset-helper','C11','std/math/emulated/field_mul.go','mvCheck.cleanEvaluations clears the cached evaluations through a helper')
 json.dump({'comment':'selftest mutants: each patch breaks one rule instance and must be detected by the listed rule(s) of its property; produced by tools/make_selftest.py','mutants':M}, open(os.path.join(root,'selftest','mutants.json'),'w'), indent=1)
 subprocess.run(['git','-C','/repo','worktree','remove','--force',WT],capture_output=True)
 print(len(M),'mutants')
